@@ -791,6 +791,11 @@ func (g *Gen) spell(a *Ast) {
 			h.Write([]byte(n.Print()))
 		}()
 		sr := NewRNG(h.Sum64())
+		if n.HasElse && len(n.Else) == 1 && n.Else[0].K == "text" && (n.K == "if" || n.K == "cloop" || n.K == "rloop" || n.K == "ifok") && sr.Chance(15) {
+			// an else tag with nothing behind it: an empty else branch
+			n.Else = nil
+			g.tag("else:empty")
+		}
 		if !sr.Chance(40) {
 			return
 		}
